@@ -69,6 +69,32 @@ def scn_swapper(comm, shape, nprocs, walk):
     return {n: {m: list(r) for m, r in d.items()} for n, d in getattr(sw, "_route_map", {}).items()}
 
 
+GROUPS4 = [{"flux_surface2": [0, 3, 1, 2], "v_parallel": [0, 2, 1, 3], "poloidal": [3, 2, 1, 0]},
+           {"flux_surface1": [0, 3, 1, 2], "z_surface": [2, 3, 1, 0], "vr_contig1": [2, 1, 3, 0]}]
+
+
+def scn_swapper4(comm, shape, nprocs, walk):
+    """the 4-D grouping of the repository's own test_LayoutSwapper: two groups of three layouts, on (n1, n2) and on n1"""
+    from pygyro.model.layout import LayoutSwapper
+    eta = sl.make_eta(shape)
+    sw = LayoutSwapper(comm, GROUPS4, [list(nprocs), nprocs[0]], eta, "flux_surface2")
+    G = sl.tokens(shape, float)
+    a, b, c = (sl.fresh(sw.bufferSize, float) for _ in range(3))
+    cur = "flux_surface2"
+    lc = sw.getLayout(cur)
+    a[:lc.size] = sl.local_block(G, lc).ravel()
+    bad = 0
+    with warnings.catch_warnings():
+        warnings.simplefilter("ignore")
+        for (dst, ub) in walk:
+            sw.transpose(a, b, cur, dst, c if ub else None)
+            a, b = b, a
+            cur = dst
+            ld = sw.getLayout(cur)
+            bad += int(not (a[:ld.size] == sl.local_block(G, ld).ravel()).all())
+    return bad
+
+
 def scn_minmax(comm, shape, nprocs, root=0):
     from pygyro.model.grid import Grid
     h, eta = sl.handler_job(comm, shape, nprocs, STD)
